@@ -230,14 +230,11 @@ pub fn check_case(ctx: &Ctx, case: &Case, with_cli: bool, t: &mut Tally) {
         return;
     };
     let Ok(rf) = ref_eval_parsed(&c1, &fac, case.k, case.area, case.lm) else { return };
+    // what the rounding of the text form does to each result according to the equations themselves:
+    // the reference evaluation of the read-back data minus the reference evaluation of the original data
+    let Ok(rf2) = ref_eval_parsed(&c2, &f2, case.k, case.area, case.lm) else { return };
     let (fl1, fl2) = (flat(&e1), flat(&e2));
     let tol = Tol::for_steps(case.spec.n);
-    // rounding introduced by the text form: 0.005 kWh per value of every line not on the 0.01 grid, and
-    // 0.0005 on every factor (three decimals), propagated with generous factors
-    let n = case.spec.n as f64;
-    let energy_slack_step = 0.00501 * off as f64;
-    let fac_on_grid = fac.wdata.iter().all(|f| [f.ren, f.nren, f.co2].iter().all(|x| ((*x as f64 * 1000.0).round() / 1000.0 - *x as f64).abs() < 1e-6));
-    let tot = (get(&fl1, "balance.we.b.ren") + get(&fl1, "balance.we.b.nren")).abs();
     let mut bad = 0;
     for (p, v) in &fl1 {
         if aux_outputs_rounded && p.contains("by_srv") {
@@ -252,36 +249,24 @@ pub fn check_case(ctx: &Ctx, case: &Case, with_cli: bool, t: &mut Tally) {
             continue;
         };
         let s = scale_of(p, &rf, *v);
-        let annual = !p.ends_with(']');
-        let mut band = tol.atol + tol.rtol * s;
-        let weighted = p.contains(".we.");
-        let ratio = p.starts_with("rer") || p.contains(".f_match[");
-        if ratio {
-            if p.starts_with("rer") {
-                let energy_scale: f64 = rf.get("balance.we.b.ren").map(|x| x.s).unwrap_or(0.0) + rf.get("balance.we.b.nren").map(|x| x.s).unwrap_or(0.0);
-                band += if tot > 0.0 { (4.0 * energy_slack_step * n * 4.0 + if fac_on_grid { 0.0 } else { 0.0011 * energy_scale }) / tot } else { f64::INFINITY };
-            } else if energy_slack_step > 0.0 {
-                continue; // f_match of perturbed flows: covered through the flows themselves
-            }
-        } else {
-            let mut slack = energy_slack_step * if annual { n } else { 1.0 };
-            if weighted {
-                slack *= 4.0;
-                if !fac_on_grid {
-                    slack += 0.0011 * s;
+        let propagated = match (rf.get(p), rf2.get(p)) {
+            (Some(a), Some(b)) => {
+                if a.s.is_finite() && b.s.is_finite() {
+                    (a.v - b.v).abs() + tol.rtol * b.s
+                } else {
+                    f64::INFINITY
                 }
             }
-            if p.starts_with("balance_m2.") {
-                slack /= case.area as f64;
-            }
-            band += slack;
-        }
+            _ => 0.0,
+        };
+        let band = tol.atol + tol.rtol * s + 1.02 * propagated;
         if !((v - v2).abs() <= band) && !(v.is_nan() && v2.is_nan()) {
             bad += 1;
             if bad <= 2 {
-                t.violation("C18.result_changes", format!("{p}: {v} from the original data, {v2} from the written-and-read-back data (admissible difference {band:.3e})"), || wit(json!({"path": p, "lines_off_the_2_decimal_grid": off})));
+                t.violation("C18.result_changes", format!("{p}: {v} from the original data, {v2} from the written-and-read-back data (admissible difference {band:.3e}, of which {propagated:.3e} is the rounding of the text form propagated by the equations)"), || wit(json!({"path": p, "lines_off_the_2_decimal_grid": off})));
             }
         }
+        t.max("largest_propagated_rounding_effect_relative_to_scale", if s > 0.0 && propagated.is_finite() { propagated / s } else { 0.0 });
         t.count("result_fields_compared");
     }
     if off == 0 {
@@ -291,7 +276,7 @@ pub fn check_case(ctx: &Ctx, case: &Case, with_cli: bool, t: &mut Tally) {
     }
     if with_cli {
         if let Some(bin) = &ctx.cli_debug {
-            cli_roundtrip(bin, case, &text, t);
+            cli_roundtrip(bin, case, &text, &rf, &rf2, t);
         }
     }
     let kinds = ["CONSUMO", "PRODUCCION", "AUX", "SALIDA", "DEMANDA"].iter().filter(|k| text.contains(*k)).count();
@@ -306,7 +291,7 @@ pub fn check_case(ctx: &Ctx, case: &Case, with_cli: bool, t: &mut Tally) {
 }
 
 /// evaluate, save with --oc / --of, evaluate the saved files: same report
-fn cli_roundtrip(bin: &std::path::Path, case: &Case, text: &str, t: &mut Tally) {
+fn cli_roundtrip(bin: &std::path::Path, case: &Case, text: &str, rf: &crate::refmodel::RefOut, rf2: &crate::refmodel::RefOut, t: &mut Tally) {
     let dir = cli::scratch_dir("c18");
     let cpath = dir.join("c.csv");
     let _ = std::fs::write(&cpath, text);
@@ -353,11 +338,30 @@ fn cli_roundtrip(bin: &std::path::Path, case: &Case, text: &str, t: &mut Tally) 
         if r2.code != Some(0) {
             t.violation("C18.saved_files_not_evaluable", format!("the files saved with --oc / --of are rejected (exit {:?}): {}", r2.code, r2.stderr.lines().next().unwrap_or("")), || wit(json!({"saved_components": std::fs::read_to_string(&oc).unwrap_or_default(), "saved_factors": std::fs::read_to_string(&of).unwrap_or_default()})));
         } else {
-            // per-m2 numbers printed with 1-2 decimals; text rounding of regenerated lines adds 0.005 kWh per value
-            let comps = text.parse::<Components>().ok();
-            let off = comps.as_ref().map(off_grid_lines).unwrap_or(0) as f64;
-            let slack = 0.011 + 4.0 * 0.00501 * off * case.spec.n as f64 / area + 0.002 * cli::numbers(&rep(&r1.stdout)).iter().fold(0.0f64, |a, b| a.max(b.abs()));
-            if rep(&r1.stdout).is_empty() || !cli::reports_equal(&rep(&r1.stdout), &rep(&r2.stdout), slack) {
+            // effect of the text rounding on the per-m2 figures, as propagated by the equations, plus the
+            // rounding of hash-ordered accumulation
+            let mut slack = report_slack(rf);
+            for (p, a) in rf.iter().filter(|(p, _)| p.starts_with("balance_m2.")) {
+                if let Some(b) = rf2.get(p) {
+                    if a.s.is_finite() && b.s.is_finite() {
+                        slack = slack.max(1.05 * (a.v - b.v).abs() + 3e-6 * a.s);
+                    }
+                }
+            }
+            // the DHW percentage is a ratio of rounded sums: it is compared on its own
+            let pct_line = |s: &str| -> Option<f64> { s.lines().find(|l| l.starts_with("Porcentaje renovable de la demanda de ACS")).and_then(|l| cli::numbers(l.split(':').nth(1).unwrap_or("")).first().copied()) };
+            let without_pct = |s: &str| -> String { s.lines().filter(|l| !l.starts_with("Porcentaje renovable de la demanda de ACS")).collect::<Vec<_>>().join("\n") };
+            let (dem, noise) = dhw_noise_band(&case.spec);
+            let off = text.parse::<Components>().ok().as_ref().map(off_grid_lines).unwrap_or(0) as f64;
+            let ndv = case.spec.lines.iter().filter(|l| matches!(l, crate::spec::Line::Need { srv, .. } if srv == "ACS")).map(|l| l.values().len()).sum::<usize>() as f64;
+            if let (Some(p1), Some(p2)) = (pct_line(&rep(&r1.stdout)), pct_line(&rep(&r2.stdout))) {
+                let pslack = 0.2002 + 100.0 * noise + if dem.abs() > 0.0 { (100.0 * 0.00501 * off * case.spec.n as f64 + p1.abs() * 0.00501 * ndv) / dem.abs() } else { f64::INFINITY };
+                if !((p1 - p2).abs() <= pslack) {
+                    t.violation("C18.saved_files_give_other_results", format!("renewable DHW percentage {p1} from the original files, {p2} from the saved files (admissible difference {pslack:.3})"), || wit(json!({"first": rep(&r1.stdout), "second": rep(&r2.stdout)})));
+                }
+            }
+            let (r1out, r2out) = (without_pct(&rep(&r1.stdout)), without_pct(&rep(&r2.stdout)));
+            if rep(&r1.stdout).is_empty() || !cli::reports_equal(&comparable_report(r1out.trim(), rf), &comparable_report(r2out.trim(), rf), slack) {
                 t.violation("C18.saved_files_give_other_results", "evaluating the files saved with --oc / --of gives another report than the original evaluation".into(), || {
                     wit(json!({"first": rep(&r1.stdout), "second": rep(&r2.stdout), "saved_components": std::fs::read_to_string(&oc).unwrap_or_default(), "slack": slack}))
                 });
